@@ -37,10 +37,30 @@ def match(b1, b2):
     return ok
 
 
-def is_inst(got, a, input_feats):
+def forced_bindings(b1, b2):
+    """variable feature -> the one concrete feature it meets at EVERY one of its occurrences in the matched parts (nothing
+    is forced when an occurrence meets no feature, another variable, or two different features: the statement leaves the
+    choice open there, and so does the code)"""
+    met = {}
+    for p, q in zip(refcat.atoms(b1), refcat.atoms(b2)):
+        for v, o in ((p[2], q[2]), (q[2], p[2])):
+            if is_var_feat(v):
+                met.setdefault(v, []).append(o)
+    out = {}
+    for v, os_ in met.items():
+        if all(o is not None and not is_var_feat(o) and o == os_[0] for o in os_):
+            out[v] = os_[0]
+    return out
+
+
+def is_inst(got, a, input_feats, forced=None):
     if refcat.blind(got) != refcat.blind(a):
         return False
     for g, p in zip(refcat.atoms(got), refcat.atoms(a)):
+        if forced and is_var_feat(p[2]) and p[2] in forced:
+            if g[2] != forced[p[2]]:
+                return False            # the variable met exactly this feature in the consumed argument
+            continue
         if g[2] == p[2]:
             continue
         if is_var_feat(p[2]) and g[2] in input_feats:
@@ -128,7 +148,7 @@ def justified(x, y, res):
             want = build(parts)
             if refcat.blind(cat) != refcat.blind(want):
                 return False, f'result shape differs from the schema result {refcat.ref_print(want)}'
-            if is_inst(cat, want, feats):
+            if is_inst(cat, want, feats, forced_bindings(b1, b2)):
                 return True, ''
             return False, f'features of the result do not come from the schema parts/inputs (schema: {refcat.ref_print(want)})'
         return False, f'premises of {label} do not hold'
